@@ -137,6 +137,10 @@ def gen_block(rng, places, bitplaces, wplaces, depth, nest):
 def gen_case(rng, depth):
     regs, vars_, locs = gen.gen_decls(rng, nregs=(0, 3), nvars=(2, 4),
                                       nlocs=(0, 2))
+    # some variables with an explicit byte order
+    for decl in vars_ + locs:
+        if rng.random() < 0.12:
+            decl[1] = rng.choice(gen.ORDERED_FMTS)
     nbit = rng.choice([0, 0, 1, 2])
     bitlocs = []
     for i in range(nbit):
